@@ -484,9 +484,18 @@ impl Mach {
                     let mut loader = Loader::new(&self.store[..]);
                     self.ps.migrate(&mut ns, &mut loader).expect("migrate")
                 };
+                // the source state must still be readable with its own store (migrate must not clobber shared links)
+                let src_ok = guarded(|| {
+                    let (items, ok) = contents(&self.ps, &self.store);
+                    ok && items == before.items && hash_of(&self.ps, &self.store) == before.hash
+                })
+                .unwrap_or(false);
                 self.ps = ps2;
                 self.store = ns;
                 let mut s = format!("x{}:{}:{}", root_ref(&self.ps), self.store.len(), digest16(&self.store));
+                if !src_ok {
+                    s.push_str("!SOURCE");
+                }
                 s.push_str(&self.compare(&before));
                 if verbose() {
                     s.push_str(&format!("|{}", hex(&self.store)));
@@ -875,23 +884,40 @@ fn directed() {
         ),
         Err(e) => println!("D api {}", serde_json::json!({"panic": e})),
     }
-    // 2. observation: `migrate` rewrites the child links of the *source* state to references into the new store
-    let r = guarded(|| {
-        let mut old_store: Vec<u8> = Vec::new();
-        let mut ps = PersistentState::from_iterator(items.iter().map(|(k, v)| (&k[..], v.clone())));
-        let before = contents(&ps, &old_store).0;
-        let mut new_store: Vec<u8> = Vec::new();
-        let migrated = {
-            let mut loader = Loader::new(&old_store[..]);
-            ps.migrate(&mut new_store, &mut loader).unwrap()
-        };
-        let new_ok = contents(&migrated, &new_store).0 == before;
-        old_store.extend_from_slice(&[0u8; 0]);
-        let src_with_old = guarded(|| contents(&ps, &old_store).0 == before);
-        let src_with_new = guarded(|| contents(&ps, &new_store).0 == before);
-        (new_ok, format!("{:?}", src_with_old), format!("{:?}", src_with_new))
-    });
-    println!("D migrate_source {}", serde_json::json!({"result": format!("{:?}", r)}));
+    // 2. `migrate` must leave the source state readable with its own store (fixed finding: it used to overwrite the
+    //    shared child links with references into the new store); three shapes of source: in memory, stored, cached
+    for (name, shape) in [("memory", 0), ("stored", 1), ("cached", 2)] {
+        let r = guarded(|| {
+            let mut old_store: Vec<u8> = Vec::new();
+            let mut ps = PersistentState::from_iterator(items.iter().map(|(k, v)| (&k[..], v.clone())));
+            if shape >= 1 {
+                let r = ps.store_update(&mut old_store).unwrap();
+                let mut loader = Loader::new(&old_store[..]);
+                ps = PersistentState::load_from_location(&mut loader, r).unwrap();
+                if shape == 2 {
+                    ps.cache(&mut loader);
+                }
+            }
+            let before = contents(&ps, &old_store).0;
+            let hash_before = hash_of(&ps, &old_store);
+            let mut new_store: Vec<u8> = Vec::new();
+            let migrated = {
+                let mut loader = Loader::new(&old_store[..]);
+                ps.migrate(&mut new_store, &mut loader).unwrap()
+            };
+            let new_ok = contents(&migrated, &new_store).0 == before && hash_of(&migrated, &new_store) == hash_before;
+            let src_ok = guarded(|| contents(&ps, &old_store).0 == before && hash_of(&ps, &old_store) == hash_before).unwrap_or(false);
+            (new_ok, src_ok)
+        });
+        match r {
+            Ok((new_ok, src_ok)) => println!(
+                "D migrate_source_{} {}",
+                name,
+                serde_json::json!({"migrated_state_ok": new_ok, "source_readable_with_old_store": src_ok})
+            ),
+            Err(e) => println!("D migrate_source_{} {}", name, serde_json::json!({"panic": e})),
+        }
+    }
 }
 
 fn main() {
